@@ -164,6 +164,31 @@ fn metadata_cases(out: &mut Vec<Case>) {
             }),
         });
     }
+    for hunk in [1000usize, 3] {
+        out.push(Case {
+            tag: format!("metadata exotic-names hunk={hunk}"),
+            opts: BOpts::new(hunk, 1 << 20, 1 << 20),
+            sweep: "names",
+            tree: Box::new(|| {
+                let long = "n".repeat(200);
+                let names: Vec<String> = [
+                    "a\nb", "a\\b", "*", "?", "[x]", "-x", " ", " lead", "trail ", "a\tb", "\u{7f}", "ÿ", "日本語", "🎉", "a\u{301}", "CON", "#", "%41", "'q'", "\"dq\"", "..a", "a..", "...",
+                ]
+                .iter()
+                .map(|s| s.to_string())
+                .chain([long])
+                .collect();
+                let mut t = empty_tree();
+                t.insert("dir".into(), Node::dir(T0 + 1));
+                for (i, n) in names.iter().enumerate() {
+                    t.insert(n.clone(), Node::file(format!("f{i}").as_bytes(), T0 + 10 + i as i64));
+                    t.insert(format!("dir/{n}"), Node::dir(T0 + 50 + i as i64));
+                    t.insert(format!("dir/{n}/{n}"), Node::symlink(n, T0 + 90 + i as i64));
+                }
+                t
+            }),
+        });
+    }
     out.push(Case {
         tag: "metadata root-mtime-and-mode".into(),
         opts: BOpts::defaults(),
@@ -322,6 +347,7 @@ pub fn replay(case: &Value) -> Vec<Violation> {
         "structure" => "structure",
         "modes" => "modes",
         "mtimes" => "mtimes",
+        "names" => "names",
         _ => "owners",
     };
     let t = match tree::tree_from_json(&case["tree"]) {
